@@ -75,3 +75,14 @@ Definition always_returns (body : list ev) (e : env) : Prop :=
   Forall (fun o => exists tag vs, o = Returned tag vs /\ True) (exec risk_prog risk_fuel body e).
 
 Ltac returns_auto := unfold always_returns, risk_fuel; intros; apply wp_returns; risk_simpl; risk_split; risk_arith.
+
+(* ---- cutting a callee: the theorem is then about the caller's own operations, and says so.
+   Only used for callees that take nothing from the caller but a byte string of arbitrary
+   length and are covered elsewhere (the Keccak sponge: Properties/C13). ---- *)
+Definition cut_prog (cut : list string) (f : string) : option (list ev) :=
+  if existsb (String.eqb f) cut then Some [] else risk_prog f.
+
+Definition safe_cut (cut : list string) (body : list ev) (e : env) : Prop :=
+  Forall no_panic (exec (cut_prog cut) risk_fuel body e).
+
+Definition sponge_cut : list string := ["hash.ComputeSHA3_256"].
